@@ -15,7 +15,7 @@ for d in sorted(glob.glob(os.path.join(HERE,'seeded','*'))):
     rows.append((name,target,summ,' '.join(caught), 'yes' if target in caught else 'NO'))
 out=[]
 out.append("### 9.1 Seeded changes written by independent sub-agents\n")
-out.append("Each agent saw only the text of one property and a scratch worktree of `/repo` (nothing from `/verif`). Every change below was confirmed independently by `tools/seeded2.sh`: the patch applies to `/repo` HEAD, the crate builds, the 35 unit tests and 29 doc tests pass, the agent's demonstration test passes without the patch and fails with it. Then every check's quick tier was run against a scratch worktree with the patch (`LC3V_REPO`).\n")
+out.append("Each agent saw only the text of one property and a scratch worktree of `/repo` (nothing from `/verif`). Every change below was confirmed independently by `tools/seeded2.sh`: the patch applies to `/repo` HEAD, the crate builds, the 35 unit tests and 29 doc tests pass, the agent's demonstration test passes without the patch and fails with it. Then every check's quick tier was run against a scratch worktree with the patch (`LC3V_REPO`); for round 5 (`-5`), for lack of time, only the target check and two or more checks of the same subsystem were run (`checks_run` in each `meta.json` lists them).\n")
 out.append("| seed | property | change (agent's summary) | caught by (quick tier) | target check catches it |\n|---|---|---|---|---|")
 for r in rows:
     out.append(f"| {r[0]} | {r[1]} | {r[2]} | {r[3]} | {r[4]} |")
